@@ -173,11 +173,14 @@ class Interp:
             sv = self.ev(e["scrut"], env)
             envs, vals, div = [], [], []
             scr_root = self._root(e["scrut"])
-            for arm in e["arms"]:
+            for ai, arm in enumerate(e["arms"]):
                 ae = dict(env)
                 if scr_root is not None and self._is_scalar_pat(arm["pat"]):
                     ae[scr_root] = TOP
                 self.bind_pat(arm["pat"], sv if not self._is_scalar_pat(arm["pat"]) else TOP, ae)
+                # `(Value::Node(n), true) => .., (value, true) => ..`: the second arm only sees values that are not node-sets
+                for lid in self._bound_after_node_arm(e["arms"], ai):
+                    ae[lid] = TOP
                 v = self.ev(arm["body"], ae)
                 envs.append(ae)
                 vals.append(v)
@@ -233,6 +236,48 @@ class Interp:
             self.bind_pat(c["pat"], v, env)
         else:
             self.ev(c, env)
+
+    def _bound_after_node_arm(self, arms, ai):
+        """lids bound in arm ai at a position where an earlier, unguarded arm already took every node-set (same literals at
+        the other positions of a tuple pattern, or a plain earlier `Value::Node(..)` arm)"""
+        def parts(p):
+            while p.get("p") in ("Ref", "Deref"):
+                p = p["sub"]
+            return p["pats"] if p.get("p") == "Tuple" and "dd" not in p else [p]
+
+        def lit(p):
+            while p.get("p") in ("Ref", "Deref"):
+                p = p["sub"]
+            if p.get("p") == "Expr" and p["e"].get("k") == "Lit":
+                return ("lit", p["e"].get("v"))
+            if p.get("p") in ("Wild",) or (p.get("p") == "Bind" and "sub" not in p):
+                return ("any",)
+            return None
+        cur = parts(arms[ai]["pat"])
+        out = []
+        for i, p in enumerate(cur):
+            q = p
+            while q.get("p") in ("Ref", "Deref"):
+                q = q["sub"]
+            if not (q.get("p") == "Bind" and "sub" not in q):
+                continue
+            for k in range(ai):
+                if "guard" in arms[k]:
+                    continue
+                prev = parts(arms[k]["pat"])
+                if len(prev) != len(cur) or not self._is_node_pat(prev[i]):
+                    continue
+                ok = True
+                for j in range(len(cur)):
+                    if j == i:
+                        continue
+                    a, b = lit(prev[j]), lit(cur[j])
+                    if a is None or b is None or not (a == ("any",) or a == b):
+                        ok = False
+                if ok:
+                    out.append(q["lid"])
+                    break
+        return out
 
     def _is_node_pat(self, pat):
         while pat.get("p") in ("Ref", "Deref"):
